@@ -4,10 +4,19 @@ package vxfw
 
 import "git.sr.ht/~rockorager/vaxis"
 
-// Hook for the verification harness under /verif (property C14). Compiled
-// only with `-tags verif`; it adds an entry point to the unexported render
-// and changes no behaviour.
+// Hooks for the verification harness under /verif (property C14). Compiled
+// only with `-tags verif`; they add entry points to the unexported render
+// and change no behaviour.
 
-// VerifC14Render paints the surface tree into win exactly as App.Run does
-// (no focused widget, so no cursor).
+// VerifC14Render paints the surface tree into win with the bare recursive
+// render (no focused widget, so no cursor): the surface is painted at the
+// origin of win and win is the only thing that clips it.
 func VerifC14Render(s Surface, win vaxis.Window) { s.render(win, nil) }
+
+// VerifC14RenderRoot paints the root surface of a frame into the screen
+// window win with the same expression App.Run uses (no focused widget, so no
+// cursor). The verification extractor compares the window argument of this
+// call with the one in App.Run on every run.
+func VerifC14RenderRoot(s Surface, win vaxis.Window) {
+	s.render(win.New(0, 0, int(s.Size.Width), int(s.Size.Height)), nil)
+}
